@@ -1389,3 +1389,59 @@ func TestVfC13Free(t *testing.T) {
 	}
 	wg.Wait()
 }
+
+// ---------------------------------------------------------------- the shipped policies, row by row
+
+type vfC13PolRow struct {
+	Ev     string `json:"ev"`     // "decide" | "allow"
+	Policy string `json:"policy"` // simple | expo | downgrade
+	Poln   int    `json:"poln"`   // NumRetries / number of consistency levels
+	N      int    `json:"n"`      // allow: Attempts() at the time of the call
+	X      string `json:"x"`      // decide: the decision; allow: yes | no
+	Y      string `json:"y"`      // decide: the error class
+}
+
+// TestVfC13PolicyTable calls GetRetryType of the REAL shipped retry policies with every server error
+// kind x write type x acknowledged / alive variant (and a few client-side errors), and Attempt with
+// every attempts count around the budget; the answers are written to VF_ROWS and judged by TLC
+// (Trace_ExecutorPol.tla) against the table transcribed from the policies' godoc.
+func TestVfC13PolicyTable(t *testing.T) {
+	out := os.Getenv("VF_ROWS")
+	if out == "" {
+		t.Skip("VF_ROWS not set")
+	}
+	f, err := os.Create(out)
+	if err != nil {
+		t.Fatal(err)
+	}
+	defer f.Close()
+	enc := json.NewEncoder(f)
+	r := &vfC13Run{errs: map[error]int{}, made: map[int]string{}}
+	classes := append(vfC13ServerClasses(), "timeout", "connloss", "overloaded")
+	lv := []Consistency{Quorum, Two, One, Any, LocalOne}
+	n := 0
+	for poln := 0; poln <= 3; poln++ {
+		pols := map[string]RetryPolicy{
+			"simple":    &SimpleRetryPolicy{NumRetries: poln},
+			"expo":      &ExponentialBackoffRetryPolicy{NumRetries: poln, Min: time.Microsecond, Max: 2 * time.Microsecond},
+			"downgrade": &DowngradingConsistencyRetryPolicy{ConsistencyLevelsToTry: lv[:poln]},
+		}
+		for name, p := range pols {
+			for _, c := range classes {
+				d := p.GetRetryType(r.mkErr(c, 0))
+				enc.Encode(vfC13PolRow{Ev: "decide", Policy: name, Poln: poln, X: vfC13DecisionName(d), Y: c})
+				n++
+			}
+			for att := 0; att <= poln+2; att++ {
+				q := &Query{cons: Quorum, routingInfo: &queryRoutingInfo{}, metrics: &queryMetrics{m: map[string]*hostMetrics{}}}
+				x := "no"
+				if p.Attempt(vfC13Snap{q, att}) {
+					x = "yes"
+				}
+				enc.Encode(vfC13PolRow{Ev: "allow", Policy: name, Poln: poln, N: att, X: x})
+				n++
+			}
+		}
+	}
+	fmt.Printf("VFC13ROWS %d\n", n)
+}
